@@ -202,6 +202,44 @@ def task_shared():
 task_shared.contract_fn = "curves.Curve.clean"
 
 
+# --------------------------------------------------------------------------------------
+# engine B: histories that leave MIXED redundancy (the degree raised by t >= 2 and a knot inserted afterwards, in both orders): clean(), and degree_clean() then
+# knot_clean(), reach the minimal representation; a second clean() changes nothing
+# --------------------------------------------------------------------------------------
+def task_mixed_history():
+    fn = "curves.Curve.clean"
+    out = []
+    bases = {"quadratic-bezier": ([F(0)] * 3 + [F(2)] * 3, [F(1), F(-2), F(4)]), "quadratic-spline": ([F(0)] * 3 + [F(1, 3)] + [F(2)] * 3, [F(1), F(-2), F(4), F(0)]),
+             "line-spline": ([F(0), F(0), F(1), F(3), F(3)], [F(1), F(5), F(-1)])}
+    histories = {"elevate2-then-insert": lambda c: (c.degree_increase(2), c.knot_insert([F(3, 2)])), "insert-then-elevate2": lambda c: (c.knot_insert([F(3, 2)]), c.degree_increase(2)),
+                 "elevate3-then-insert-twice": lambda c: (c.degree_increase(3), c.knot_insert([F(3, 2), F(3, 2)])),
+                 "elevate1-insert-elevate1": lambda c: (c.degree_increase(1), c.knot_insert([F(1, 2)]), c.degree_increase(1))}
+    cleaners = {"clean": lambda c: c.clean(), "degree_clean;knot_clean": lambda c: (c.degree_clean(), c.knot_clean()), "knot_clean;degree_clean;knot_clean": lambda c: (c.knot_clean(), c.degree_clean(), c.knot_clean())}
+    for bname, (U, P) in bases.items():
+        for hname, h in histories.items():
+            for cname, cl in cleaners.items():
+                bad = None
+                try:
+                    c = curves.Curve(list(U), list(P))
+                    h(c)
+                    cl(c)
+                    got = (tuple(c.knotvector), tuple(c.ctrlpoints))
+                    if got != (tuple(U), tuple(P)):
+                        bad = "cleans to degree %d, knots %s; the minimal representation is degree %d, knots %s" % (c.degree, tuple(map(str, c.knotvector)), U.count(U[0]) - 1, tuple(map(str, U)))
+                    else:
+                        c.clean()
+                        if (tuple(c.knotvector), tuple(c.ctrlpoints)) != got:
+                            bad = "a second clean() changes the curve"
+                except Exception as e:
+                    bad = "%s: %s" % (type(e).__name__, str(e)[:100])
+                out.append(ob("%s:mixed-history[%s,%s,%s]" % (fn, bname, hname, cname), fn, FAILED if bad else PROVED, "B", "concrete", 0.0,
+                              bad or "minimal representation reached, idempotent", dict(kind="c14.mixed", base=bname, history=hname, cleaner=cname) if bad else None))
+    return out + [{"_stats": dict(cases=len(out))}]
+
+
+task_mixed_history.contract_fn = "curves.Curve.clean"
+
+
 def tasks(tier, seed):
     from ..pyvc.driver import verify
     from ..contracts import curvesv
@@ -214,10 +252,15 @@ def tasks(tier, seed):
     for p, cells in ((1, (0, 0, 0)), (2, (0, 0, 0)), (1, (0, 1, 0)), (2, (0, 2, 0))):
         ts.append((task_strict, (p, cells, 0)))
     ts.append((task_shared, ()))
+    ts.append((task_mixed_history, ()))
     return ts
 
 
 def replay(o):
+    if (o.get("witness") or {}).get("kind") == "c14.mixed":
+        w = o["witness"]
+        r = [x for x in task_mixed_history() if "id" in x and x["id"].endswith("[%s,%s,%s]" % (w["base"], w["history"], w["cleaner"]))][0]
+        return r["status"] == FAILED, "the minimal representation, and idempotence", r["detail"]
     if (o.get("witness") or {}).get("kind") == "c14.shared":
         r = [x for x in task_shared() if "id" in x and x["id"].endswith("[p=%d]" % o["witness"]["p"])][0]
         return r["status"] == FAILED, "both curves clean to the minimal form; the other curve is untouched", r["detail"]
